@@ -12,13 +12,13 @@ TIMES = 5
 
 
 def select(ctx):
-    """quick: every NoClash pair + every 6th clash pair (offset by the seed); thorough: the whole scope"""
+    """quick: every NoClash pair + every 3rd clash pair (offset by the seed); thorough: the whole scope"""
     alln = list(stagegen.c10_all())
     if ctx.tier != "quick":
         return alln, len(alln)
     nc = [c for c in alln if c["noclash"]]
     cl = [c for c in alln if not c["noclash"]]
-    return nc + cl[ctx.seed % 6::6], len(alln)
+    return nc + cl[ctx.seed % 3::3], len(alln)
 
 
 def main(ctx, args):
